@@ -175,6 +175,19 @@ pub fn check(b: &Bound, c: &Case) -> Result<Option<String>, String> {
         other => return Err(format!("library cannot evaluate the case formulae: {:?}", other.map(|r| r.map(|_| "ok")))),
     };
     let bk = Bound::new_opt(&b.name, &b.spec, k as u16, false).map_err(|e| format!("{e:?}"))?;
+    // the reference is the library's answer for every formula evaluated on its own; the batch entry
+    // point must agree with it (otherwise tool and batch API could share a defect unnoticed)
+    for (i, f) in c.formulas.iter().enumerate() {
+        let solo = guarded(AssertUnwindSafe(|| if ext { mc::model_check_extended_formula_dirty(f, &g, &ctx_sets) } else { mc::model_check_formula_dirty(f, &g) }));
+        match solo {
+            Ok(Ok(s)) => {
+                if s.as_bdd() != lib[i].as_bdd() {
+                    return Ok(Some(format!("library disagrees with itself: formula {f:?} evaluated alone differs from position {i} of the batch entry point (so the tool's answer cannot equal both)")));
+                }
+            }
+            other => return Err(format!("library cannot evaluate {f:?} alone: {:?}", other.map(|r| r.map(|_| "ok")))),
+        }
+    }
     let lib_masks: Vec<Vec<Mask>> = lib.iter().map(|s| bk.masks_of(s)).collect();
     // stdout
     let blocks: Vec<Block> = cli::parse_blocks(&out.stdout).map_err(|e| format!("cannot parse tool output: {e}"))?;
